@@ -139,6 +139,20 @@ def check_clone(ctx, F, rule="E-VNM.clone"):
             shallow.append(cn)
         if re.search(r"Box<str>|into_boxed_str|Box::<str>|alloc::boxed::Box<str>", cn + " " + decl + " " + ga) and "Unowned" not in cn:
             fresh = True
+    # the number stored in the clone's index is the position of the name in `names` (the enumerate counter of the loop)
+    for i, t in B.calls():
+        cn = cfg.callee_name(t) or ""
+        if re.search(r"HashMap::<K, V, S, A>::insert$|HashMap<.*>::insert$", cn) and len(t.get("a") or []) == 3:
+            org = origins(B, m, [t["a"][2]])
+            names_ = [(cfg.callee_name(o[1]) or "") for o in org if o[0] == "call"]
+            pos = any(re.search(r"Enumerate<.*>.*::next$|Enumerate<I> as .*Iterator>::next$", x) for x in names_)
+            ctx.ob(rule + ".index", rule + ".index:VarNameMap::clone", pos and not any(x.endswith("::len") for x in names_),
+                   "%s (%s): %s" % (F.nice(fid), F.where(fid),
+                                    "the clone's index maps each name to its position in `names`" if pos and
+                                    not any(x.endswith("::len") for x in names_) else
+                                    "the number inserted into the clone's `index` does not come from the position of the name in "
+                                    "`names` (origins: %s): unnamed variables in between shift every later name" %
+                                    sorted({x.rsplit("::", 2)[-2] + "::" + x.rsplit("::", 1)[-1] for x in names_ if x})))
     ok = not shallow and fresh
     ctx.ob(rule, rule + ":VarNameMap", ok,
            "%s (%s): %s" % (F.nice(fid), F.where(fid),
